@@ -44,6 +44,31 @@ type Ctx struct {
 	calls    int
 	notes    []string
 	observed []string
+	// alias: while set, obligations and floors recorded under a rule name of another property are filed under
+	// the name this property lists the rule as (a rule written for one property and cross-listed by another)
+	alias map[string]string
+}
+
+// As runs f with the rule name `from` filed as `to`.
+func (c *Ctx) As(from, to string, f func()) {
+	if c.alias == nil {
+		c.alias = map[string]string{}
+	}
+	prev, had := c.alias[from]
+	c.alias[from] = to
+	f()
+	if had {
+		c.alias[from] = prev
+	} else {
+		delete(c.alias, from)
+	}
+}
+
+func (c *Ctx) ruleName(rule string) string {
+	if to, ok := c.alias[rule]; ok {
+		return to
+	}
+	return rule
 }
 
 func NewCtx(p *Prog, prop, tier string) *Ctx {
@@ -53,6 +78,7 @@ func NewCtx(p *Prog, prop, tier string) *Ctx {
 func isControl(construct string) bool { return strings.Contains(construct, "zzControl") }
 
 func (c *Ctx) add(rule, construct, pos string, st Status, why, path string) {
+	rule = c.ruleName(rule)
 	o := Obl{Rule: rule, Construct: construct, Pos: pos, Status: st, Why: why, Path: path, Control: isControl(construct)}
 	c.obls = append(c.obls, o)
 	if !o.Control {
@@ -80,7 +106,7 @@ func (c *Ctx) Check(cond bool, rule, construct, pos, okWhy, badWhy string) bool 
 }
 
 // Floor declares the minimum number of real (non-control) instances a rule must match.
-func (c *Ctx) Floor(rule string, n int) { c.floors[rule] = n }
+func (c *Ctx) Floor(rule string, n int) { c.floors[c.ruleName(rule)] = n }
 
 func (c *Ctx) Analysed(fn string)   { c.funcs[fn] = true }
 func (c *Ctx) CallSites(n int)      { c.calls += n }
